@@ -1259,6 +1259,7 @@ class Interp:
             values = self.eval(s.value, st, fr, share=shared)
             if any(isinstance(t, (ast.Tuple, ast.List)) for t in s.targets):
                 values = self._forced(values, fr)   # a, b = map(...): unpacking consumes the iterator
+                values = [Result(r.kind, ("tuple",) + tuple(r.value[1:]), r.state) if r.kind == "val" and isinstance(r.value, tuple) and r.value[:1] == ("lazyseq",) else r for r in values]
             for r in values:
                 if r.kind == "exc":
                     out.append(("raise", r.value, r.state))
@@ -1933,6 +1934,8 @@ class Interp:
                     v = argvals[p.arg]
                 elif p.arg in defaults and isinstance(defaults[p.arg], ast.Constant):
                     v = self.domain.constant(defaults[p.arg])
+                elif p.arg in defaults and isinstance(defaults[p.arg], ast.Tuple) and all(isinstance(x, ast.Constant) for x in defaults[p.arg].elts) and getattr(self.domain, "exact_lists", False):
+                    v = ("tuple",) + tuple(self.domain.constant(x) for x in defaults[p.arg].elts)   # an immutable default
                 elif p.arg in defaults and getattr(self.domain, "heap", False) and _empty_container(defaults[p.arg]) is not None:
                     # a mutable default is one object, made when the function is defined and shared by all its calls
                     v = ("h", f"default:{getattr(func, 'name', '')}:{p.arg}:{defaults[p.arg].lineno}")
